@@ -45,4 +45,17 @@ CHECKS = {
         "text": "TLC checks, one state per expression, that the code-shaped construction accepts exactly the language of every expression with <= 3 (thorough 4) operators over two symbols on every string of length <= 4 (5), that tags after a string are exactly the matching alternatives of every tagged pair, and that terminal states admit no matching extension. Every one of these expressions is then built through the real NFA API under three byte mappings (incl. 0x00 and 0xFF), compiled, and walked; TLC judges accept/tags/terminal per string and that all 256 bytes are answered with a dead transition outside the alphabet.",
         "note": "Single-byte literals only; byte classes and the production grammars are covered indirectly via C03/C04. Terminal is judged in the sound direction only.",
     },
+    "C16": {
+        "level": "model_checking",
+        "technique": "TLA+ code-shaped IOQueue (chunks/offset/length) model-checked to refine a flush-delimited byte-deque spec; real IOQueue operation scripts trace-validated step by step against the spec (set of compatible spec states across drops); pty sessions of the real terminal object judged by PollTrace",
+        "text": "TLC proves IOQueueImpl => IOQueueSpec (remaining bytes chunk by chunk, reported length = readable bytes, FIFO, the implementation's drop is one of the drops the property allows) over all write/flush/read/consume/drop sequences within the bound. Thousands of seeded scripts on the real IOQueue are then validated as behaviours of IOQueueSpec, comparing len, chunk count, front slice and every read result after every step. The terminal-level clause (short writes, EAGAIN, draining peer, frames_drop) is judged on real pseudo-terminal sessions instrumented with the verif-hooks events (see C17).",
+        "note": "Queue bound: chunks <= 3/4, bytes <= 5/8 in the model; kernel scheduling of the pty sessions is sampled, not enumerated.",
+    },
+    "C18": {
+        "level": "model_checking",
+        "technique": "TLA+ trie model (replace-on-register, lookup fold, two-round lookup_state) model-checked to refine a prefix-free dictionary spec over all registration histories and fed key sequences; the same histories replayed on KeyMap/KeyMapHandler and judged by TLC; parser vectors generated from a TLA+ syntax module",
+        "text": "TLC proves KeyTrie => KeyMapSpec for every history of <= 3 registrations of chords of length <= 3 over 2 (thorough 3) keys - enumeration = bound set, every lookup result, prefix-freeness - and the handler clauses (fires exactly at the last key of a chord typed from a clean point, never otherwise) for every fed key sequence, plus a long-chord configuration (length 4, 6 fed keys). Every one of these histories is replayed on the real KeyMap, register_override (two halves), lookup_state and KeyMapHandler with one extra unbound key, and judged by TLC. Key/chord parsers: 3 384 (text, expected value) vectors from KeySyntax.tla (36 names x modifier subsets), 12 486 hostile token concatenations and seeded non-ASCII strings: no panic, expected value, canonical print, print/parse and serde round trip.",
+        "note": "Handler clauses are judged only from points where the property speaks (start, after a fire, after an unbound key at idle, after a key occurring in no chord).",
+    },
 }
+
